@@ -331,3 +331,93 @@ m('C16','add-truncates',S,
 m('C16','api-put-wrong-tag',A,
   '\t\t_, err = token.Update(&newtoken, etag)','\t\t_, etag2, _ := token.Get(t)\n\t\t_, err = token.Update(&newtoken, etag2)',
   'R16.5','token.Update','store re-validated against a fresh tag: lost update')
+# ---------------- C08 ----------------
+m('C08','wildcard-after-bad-password',G,
+  '\t\t\tif ok {\n\t\t\t\treturn c.Permissions, nil\n\t\t\t} else {\n\t\t\t\treturn Permissions{}, ErrBadPassword\n\t\t\t}',
+  '\t\t\tif ok {\n\t\t\t\treturn c.Permissions, nil\n\t\t\t}',
+  'R8.1','an entry shadows the wildcard','wrong password for a named user falls through to the wildcard user',quick=True)
+m('C08','match-error-ignored',G,
+  '\t\t\tok, err := c.Password.Match(creds.Password)\n\t\t\tif err != nil {\n\t\t\t\treturn Permissions{}, err\n\t\t\t}\n\t\t\tif ok {',
+  '\t\t\tok, err := c.Password.Match(creds.Password)\n\t\t\tif err != nil {\n\t\t\t\tok = true\n\t\t\t}\n\t\t\tif ok {',
+  'R8.1','success only after a matching password','malformed hash logs the user in')
+m('C08','wildcard-permissions-of-entry',G,
+  '\t\tif ok {\n\t\t\treturn desc.WildcardUser.Permissions, nil\n\t\t}','\t\tif !ok {\n\t\t\treturn desc.WildcardUser.Permissions, nil\n\t\t}',
+  'R8.1','success only after a matching password','wildcard accepts every wrong password')
+m('C08','empty-type-matches','group/client.go',
+  '\tcase "":\n\t\treturn false, nil','\tcase "":\n\t\treturn pw == "", nil',
+  'R8.2','an entry with no password never matches','entry without password accepts the empty password')
+m('C08','plain-compare-eq','group/client.go',
+  '\t\treturn ConstantTimeCompare(pw, *p.Key), nil','\t\treturn pw == *p.Key, nil',
+  'R8.2','plain passwords are compared in constant time','timing side channel')
+m('C08','ctc-prefix','group/client.go',
+  '\treturn len(a) == len(b) && equal','\treturn len(a) <= len(b) && equal',
+  'R8.2','ConstantTimeCompare requires equal length','a prefix of the password is accepted')
+m('C08','unknown-type-accepted','group/client.go',
+  '\tdefault:\n\t\treturn false, errors.New("unknown password type")','\tdefault:\n\t\treturn true, nil',
+  'R8.2','unknown types are errors','unknown password types match')
+m('C08','record-for-everyone',D,
+  '\t\tif op && !record {','\t\tif (op || present) && !record {',
+  'R8.3',"'record' is derived only under its condition",'every user of a recording group may record')
+m('C08','token-ignores-setting',D,
+  '\tif desc != nil && desc.UnrestrictedTokens {\n\t\tif present && !token {','\tif desc != nil {\n\t\tif present && !token {',
+  'R8.3',"'token' is derived only under its condition",'presenters get token rights in restricted groups')
+m('C08','tool-new-hash-name','galenectl/galenectl.go',
+  '\t\t\tHash:       "sha-256",','\t\t\tHash:       "sha256",',
+  'R8.4','every password hash the tool writes','tool writes a hash name the server rejects')
+m('C08','match-fixed-iterations','group/client.go',
+  '[]byte(pw), salt, p.Iterations, len(key), h,','[]byte(pw), salt, 4096, len(key), h,',
+  'R8.4','Match derives iteration count','iteration count not taken from the record')
+m('C08','init-aliases-role',W,
+  '\tc.permissions = slices.Clone(perms)','\tc.permissions = perms',
+  'R8.5','store to webClient.permissions in rtpconn.(*webClient).Init','permission slice aliases the role table')
+m('C08','insert-after-auth-failure',G,
+  '\t\tusername, perms, err = g.description.GetPermission(\n\t\t\tg.name, creds,\n\t\t)\n\t\tif err != nil {\n\t\t\treturn nil, err\n\t\t}',
+  '\t\tusername, perms, err = g.description.GetPermission(\n\t\t\tg.name, creds,\n\t\t)\n\t\tif err != nil && creds.Token != "" {\n\t\t\treturn nil, err\n\t\t}',
+  'R8.6','no insertion after a failed credential check','bad password still admitted')
+# ---------------- C09 ----------------
+J='token/jwt.go'
+m('C09','stateful-prefix-no-slash',S,
+  'return strings.HasPrefix(group, token.Group+"/")','return strings.HasPrefix(group, token.Group)',
+  'R9.1','HasPrefix in token.(*Stateful).match',"scope 'a' covers group 'ab'",quick=True)
+m('C09','jwt-prefix-no-suffix-test',J,
+  '\tif !strings.HasSuffix(pth, "/") {\n\t\treturn false\n\t}\n','',
+  'R9.1','HasPrefix in token.matchGroup','audience /group/a covers /group/ab/')
+m('C09','jwt-nosub-prefix',J,
+  '\t\treturn pth == "/group/"+group+"/"','\t\treturn strings.HasPrefix("/group/"+group+"/", pth)',
+  'R9.1','matchGroup: exact match without subgroups','a parent audience joins subgroups without include-subgroups')
+m('C09','no-expiry-valid',S,
+  'if token.Expires == nil || now.After(*token.Expires) {','if token.Expires != nil && now.After(*token.Expires) {',
+  'R9.2','Stateful.Check','token without expiry is valid for ever')
+m('C09','notbefore-ignored',S,
+  '\tif token.NotBefore != nil && now.Before(*token.NotBefore) {\n\t\treturn "", nil, errors.New("token is in the future")\n\t}\n','',
+  'R9.2','Stateful.Check','token usable before its not-before time')
+m('C09','check-skips-match',S,
+  '\tif !token.match(group) {\n\t\treturn "", nil, errors.New("token for bad group")\n\t}\n\tnow := time.Now()','\tif !token.match(group) && group == "" {\n\t\treturn "", nil, errors.New("token for bad group")\n\t}\n\tnow := time.Now()',
+  'R9.2','Stateful.Check','token of one group joins another')
+m('C09','jwt-exp-optional',J,
+  '\t\tjwt.WithExpirationRequired(),\n','',
+  'R9.3','signed tokens must carry an expiry','signed tokens without exp accepted')
+m('C09','jwt-alg-not-required',J,
+  '\t\t\tif alg == "" {\n\t\t\t\treturn nil, errors.New("alg not found")\n\t\t\t}\n','',
+  'R9.3','key function rejects a missing algorithm','token without alg tries every key')
+m('C09','parsekeys-ignores-alg',J,
+  '\t\tif alg != "" && ky["alg"] != alg {\n\t\t\tcontinue\n\t\t}\n','',
+  'R9.3','ParseKeys skips keys declared for another algorithm','algorithm confusion')
+m('C09','parsekey-extra-alg',J,
+  '\t\tif alg != "RS256" {','\t\tif alg != "RS256" && alg != "HS256" {',
+  'R9.3','ParseKey admits only the fixed','RSA key usable as an HMAC secret')
+m('C09','jwt-host-ignored',J,
+  '\t\t\tif !strings.EqualFold(url.Host, host) {\n\t\t\t\tcontinue\n\t\t\t}','\t\t\tif !strings.EqualFold(url.Host, host) {\n\t\t\t\tok = false\n\t\t\t}',
+  'R9.3','JWT.Check','tokens issued for another server accepted')
+m('C09','username-override',G,
+  '\t\tif username == "" && creds.Username != nil {','\t\tif creds.Username != nil {',
+  'R9.4','client-chosen username only','client overrides the username written in the token')
+m('C09','username-shadows-user',G,
+  '\t\t\tif desc.userExists(*creds.Username) {\n\t\t\t\treturn "", nil, ErrDuplicateUsername\n\t\t\t}\n','',
+  'R9.4','client-chosen username only','token bearer takes the name of a configured user')
+m('C09','global-token-any-scope','webserver/util.go',
+  '_, perms, err := t.Check(conf.CanonicalHost, "")','_, perms, err := t.Check(conf.CanonicalHost, "admin")',
+  'R9.5','global admin token','a token for group admin administers the server')
+m('C09','root-match-any-token',S,
+  '\t\treturn token.IncludeSubgroups && token.Group == ""','\t\treturn token.IncludeSubgroups',
+  'R9.5','Stateful.match','any hierarchical token matches the root scope')
